@@ -1,9 +1,9 @@
-(* Proofs/CodecErrEnc.v — C08, encode side: T.encode(value) returns bytes or raises DataError
-   except on exactly the calls [enc_foreign] names (TypeError escapes); a value that is clearly
-   outside the domain ([bad]) and in none of the three silently accepted classes ([silent]) is
-   rejected with DataError. *)
+(* Proofs/CodecErrEnc.v — C08, encode side: every T.encode(value) returns bytes or raises
+   DataError (no exception of another class escapes any call); a value that is clearly outside the
+   domain ([bad]) and not in the silently accepted class ([silent]: arrays of bit strings given too
+   few bits / a partial element) is rejected with DataError. *)
 From PV Require Import Base.Bytes Base.BytesLemmas Base.Res.
-From PV Require Import Gen.Types Gen.CodecFacts Model.Codec Model.CodecDom.
+From PV Require Import Gen.Types Gen.CodecFacts Model.Codec.
 From PV Require Import Proofs.CodecErrDefs Proofs.CodecErrBase.
 From Coq Require Import ZifyBool.
 Open Scope Z_scope.
@@ -16,28 +16,13 @@ Proof. destruct r; cbn; auto. Qed.
 Lemma pub_encode_lib f v : lib_enc (pub_encode f v).
 Proof. apply wrap_all_lib. Qed.
 
-(* ------------------------------------------------------------------ which exceptions escape encode *)
-Theorem encode_lib t v : enc_foreign t v = false -> in_model t v = true -> lib_enc (encode t v).
+(* ------------------------------------------------------------------ no exception but DataError escapes encode *)
+Theorem encode_lib t v : lib_enc (encode t v).
 Proof.
-  intros Hf Hm. destruct t; cbn [encode]; cbn [enc_foreign] in Hf; try discriminate;
-    try (apply pub_encode_lib); try (apply wrap_all_lib).
-  - (* TNBytes *)
-    unfold nbytes_encode. destruct v; try apply pub_encode_lib; cbn [in_model] in Hm; destruct (ints_of l); cbn in *; auto; discriminate.
-  - (* TArrFixed *)
-    unfold array_encode. destruct v; try discriminate; cbn [py_len bind];
-      (destruct (_ <? _); [reflexivity|cbn [bind]; apply wrap_all_lib]).
-  - unfold array_encode. destruct v; try discriminate; cbn [py_len bind]; apply wrap_all_lib.
-  - unfold array_encode. destruct v; try discriminate; cbn [py_len bind]; apply wrap_all_lib.
+  destruct t; cbn [encode]; try (apply pub_encode_lib); apply wrap_all_lib.
 Qed.
 
-(* the guard is exact: on every call it names, TypeError escapes *)
-Theorem enc_foreign_escapes t v : enc_foreign t v = true -> encode t v = Err (Foreign TypeError).
-Proof.
-  destruct t; cbn [enc_foreign encode]; try discriminate; [reflexivity| | |];
-    intros H; unfold array_encode; destruct v; try discriminate; reflexivity.
-Qed.
-
-(* DATE_AND_TIME.encode(time, date): the overriding method wraps *)
+(* the positional forms of the overriding public methods *)
 Theorem datetime_encode2_lib time date : lib_enc (datetime_encode2 time date).
 Proof. apply wrap_all_lib. Qed.
 Theorem stringn_encode_cs_lib cs v : lib_enc (stringn_encode_cs cs v).
@@ -58,73 +43,79 @@ Lemma is_err_pub f v : is_err (pub_encode f v) = is_err (f v).
 Proof. apply is_err_wrap. Qed.
 
 Lemma as_member_err t x : is_err (encode t x) = true -> is_err (as_member t (encode t) x) = true.
+Proof. unfold as_member. auto. Qed.
+
+Lemma int_encode_err sg w v : int_bad sg w v = true -> is_err (int_encode sg w v) = true.
 Proof.
-  intros H. unfold as_member. destruct t; auto. destruct x; auto; destruct (encode (TNBytes n) _); cbn in *; auto.
+  unfold int_encode, int_bad. rewrite is_err_pub. unfold pack_int. destruct v; intros H; try reflexivity; try discriminate.
+  apply negb_true_iff in H. now rewrite H.
 Qed.
 
-Lemma int_encode_err sg w v :
-  match v with VInt z => int_in_range sg w z = false | VBool _ => False | _ => True end ->
-  is_err (int_encode sg w v) = true.
-Proof.
-  unfold int_encode. rewrite is_err_pub. unfold pack_int. destruct v; intros H; try reflexivity; [contradiction|now rewrite H].
-Qed.
+Lemma enc_ok_false e s : enc_ok e s = false -> is_err (text_encode e s) = true.
+Proof. unfold enc_ok. now intros H%negb_false_iff. Qed.
 
-Lemma encodable_false e s : encodable e s = false -> is_err (text_encode e s) = true.
-Proof. unfold encodable. destruct (text_encode e s); [discriminate|reflexivity]. Qed.
-
-(* a string body: len(value), the length prefix, value.encode(...) *)
-Lemma str_body_err lsg lw enc (tail : text -> bytes -> res bytes) v :
-  (forall s l, is_err (text_encode enc s) = true -> is_err (tail s l) = true) ->
-  match v with VStr s => str_bad lsg lw enc s = true | _ => True end ->
-  is_err (let* n := py_len v in let* l := int_encode lsg lw (VInt n) in
-          match v with VStr s => tail s l | _ => Err (Foreign AttributeError) end) = true.
-Proof.
-  intros Ht H. destruct v; cbn [py_len bind]; try reflexivity;
-    try (destruct (int_encode lsg lw (VInt _)); reflexivity).
-  unfold str_bad in H. apply orb_prop in H as [H|H].
-  - apply is_err_bind, int_encode_err. now apply negb_true_iff.
-  - apply is_err_bind_all. intros l. apply Ht, encodable_false. now apply negb_true_iff.
-Qed.
+Lemma enc_char_size_width e : enc_char_size e = char_width e.
+Proof. destruct e; reflexivity. Qed.
 
 Lemma str_encode_bad lsg lw enc v :
   match v with VStr s => str_bad lsg lw enc s = true | _ => True end -> is_err (str_encode lsg lw enc v) = true.
 Proof.
-  intros H. unfold str_encode. rewrite is_err_pub.
-  apply (str_body_err lsg lw enc (fun s l => let* d := text_encode enc s in Ok (l ++ d))); [|exact H].
-  intros s l Hs. now apply is_err_bind.
+  intros H. unfold str_encode. rewrite is_err_pub. destruct v; try reflexivity.
+  unfold str_bad in H. destruct (text_encode enc s) as [d|]; cbn [bind]; [|reflexivity].
+  apply is_err_bind, int_encode_err. cbn [int_bad]. now rewrite enc_char_size_width.
 Qed.
 
 Lemma stringn_encode_bad v :
-  match v with VStr s => str_bad false 2 Utf8 s = true | _ => True end -> is_err (stringn_encode v) = true.
+  match v with VStr s => str_bad false 2 Latin1 s = true | _ => True end -> is_err (stringn_encode v) = true.
 Proof.
   intros H. unfold stringn_encode, stringn_encode_cs. rewrite is_err_wrap. cbn [as_int]. rewrite stringn_enc_1_is.
-  rewrite named_UINT_encode.
-  destruct (int_encode false 2 (VInt 1)) as [a|]; [cbn [bind]|reflexivity].
-  apply (str_body_err false 2 Utf8 (fun s b => let* d := text_encode Utf8 s in Ok (a ++ b ++ d))); [|exact H].
-  intros s l Hs. now apply is_err_bind.
+  destruct v; try reflexivity. unfold str_bad in H. destruct (text_encode Latin1 s) as [d|]; cbn [bind]; [|reflexivity].
+  rewrite named_UINT_encode. destruct (int_encode false 2 (VInt 1)) as [a|]; cbn [bind]; [|reflexivity].
+  apply is_err_bind, int_encode_err. cbn [int_bad char_width] in *. exact H.
 Qed.
 
 Lemma fixedstr_encode_bad size lsg lw cap v :
-  match v with VStr s => str_bad lsg lw Latin1 (firstn cap s) = true | _ => True end ->
+  match v with VStr s => fstr_bad lsg lw (firstn cap s) = true | _ => True end ->
   is_err (fixedstr_encode size lsg lw cap v) = true.
 Proof.
   intros H. unfold fixedstr_encode. rewrite is_err_pub, fss_enc_is.
   destruct v; cbn [py_slice bind]; try reflexivity.
   - (* VStr *)
-    unfold slice. rewrite Nat.sub_0_r. cbn [skipn].
-    apply (str_body_err lsg lw Latin1 (fun s' l => let* d := text_encode Latin1 s' in Ok (l ++ d ++ zeros (size - length s'))) (VStr (firstn cap s))); [|exact H].
-    intros s' l Hs. now apply is_err_bind.
+    unfold slice. rewrite Nat.sub_0_r. cbn [skipn py_len bind].
+    unfold fstr_bad in H. apply orb_prop in H as [H|H].
+    + apply is_err_bind, int_encode_err. exact H.
+    + apply is_err_bind_all. intros l. apply is_err_bind, enc_ok_false. now apply negb_true_iff.
   - cbn [py_len bind]. destruct (int_encode lsg lw _); reflexivity.
   - cbn [py_len bind]. destruct (int_encode lsg lw _); reflexivity.
   - cbn [py_len bind]. destruct (int_encode lsg lw _); reflexivity.
 Qed.
 
 Lemma pccc_string_encode_bad v :
-  match v with VStr s => encodable Latin1 s = false | _ => True end -> is_err (pccc_string_encode v) = true.
+  match v with VStr s => enc_ok Latin1 s = false | _ => True end -> is_err (pccc_string_encode v) = true.
 Proof.
   intros H. unfold pccc_string_encode. rewrite is_err_pub, pccc_string_enc_is, named_UINT_encode.
   destruct v; cbn [py_len bind]; try reflexivity; try (destruct (int_encode false 2 (VInt _)); reflexivity).
-  apply is_err_bind_all. intros l. apply is_err_bind, encodable_false, H.
+  apply is_err_bind_all. intros l. apply is_err_bind, enc_ok_false, H.
+Qed.
+
+Lemma datetime_encode_bad v :
+  match seq_items v with
+  | Some [time; date] => int_bad false 4 time || int_bad false 2 date = true
+  | Some _ => True
+  | None => sized v = false
+  end -> is_err (datetime_encode v) = true.
+Proof.
+  intros H. unfold datetime_encode, datetime_encode2. rewrite is_err_wrap, named_UDINT_encode, named_UINT_encode.
+  assert (Hseq : forall l, match l with
+                           | [time; date] => int_bad false 4 time || int_bad false 2 date = true
+                           | _ => True
+                           end ->
+                 is_err (let* td := match l with [t; d] => Ok (t, d) | _ => Err (Foreign ValueError) end in
+                         let* a := int_encode false 4 (fst td) in let* b := int_encode false 2 (snd td) in Ok (a ++ b)) = true).
+  { intros l Hl. destruct l as [|t [|d [|? ?]]]; try reflexivity. cbn [bind fst snd].
+    apply orb_prop in Hl as [Hl|Hl]; [now apply is_err_bind, int_encode_err|].
+    apply is_err_bind_all. intros a. now apply is_err_bind, int_encode_err. }
+  destruct v; cbn [seq_items sized] in H; try discriminate; cbn [py_iter bind]; try reflexivity; apply Hseq, H.
 Qed.
 
 (* ---- sequences of members / elements: one failing item fails the whole *)
@@ -223,27 +214,25 @@ Proof.
   cbn [firstn nth_error]. apply IH. lia.
 Qed.
 
-(* the array body, for a list / tuple of values none of which is in a silently accepted class *)
-Lemma array_items_err (fixed : option nat) e (enc : val -> res bytes) (v : val) l :
-  seq_items v = Some l -> bits_width e = None ->
+(* the array body, for a list / tuple of values *)
+Lemma array_items_err (fixed : option nat) (enc : val -> res bytes) (v : val) l :
+  seq_items v = Some l ->
   (match fixed with
    | Some n => (length l <? n)%nat = true \/ exists j x, (j < n)%nat /\ nth_error l j = Some x /\ is_err (enc x) = true
    | None => exists j x, nth_error l j = Some x /\ is_err (enc x) = true
    end) ->
-  is_err (array_encode fixed (bits_width e) (is_instance e) enc v) = true.
+  is_err (array_encode fixed None enc v) = true.
 Proof.
-  intros Hv Hb H. rewrite Hb. unfold array_encode.
+  intros Hv H. unfold array_encode. rewrite is_err_wrap.
   assert (Hlen : py_len v = Ok (zlen l)) by (destruct v; try discriminate; injection Hv as <-; reflexivity).
   rewrite Hlen. cbn [bind].
   destruct fixed as [n|].
-  - destruct (zlen l <? Z.of_nat n) eqn:En; [reflexivity|]. cbn [bind]. rewrite is_err_wrap.
-    destruct (is_instance e); [reflexivity|].
+  - destruct (zlen l <? Z.of_nat n) eqn:En; [reflexivity|]. cbn [bind].
     destruct H as [H|(j & x & Hj & Hn & He)]; [apply Nat.ltb_lt in H; unfold zlen in En; lia|].
     assert (Hx : exists j' x', (j' < n)%nat /\ nth_error l (0 + j') = Some x' /\ is_err (enc x') = true) by (exists j, x; auto).
     destruct (encode_items_err enc l n 0%nat Hx) as [H1 H2].
     destruct v; try discriminate; injection Hv as ->; assumption.
-  - cbn [bind]. rewrite is_err_wrap. destruct (is_instance e); [reflexivity|].
-    destruct H as (j & x & Hn & He).
+  - cbn [bind]. destruct H as (j & x & Hn & He).
     assert (Hj : (j < length l)%nat) by (apply nth_error_Some; congruence).
     assert (Hx : exists j' x', (j' < Z.to_nat (zlen l))%nat /\ nth_error l (0 + j') = Some x' /\ is_err (enc x') = true).
     { exists j, x. repeat split; [unfold zlen; lia|exact Hn|exact He]. }
@@ -251,16 +240,15 @@ Proof.
     destruct v; try discriminate; injection Hv as ->; assumption.
 Qed.
 
-Lemma unsized_array_err fixed bw inst enc v : sized v = false -> seq_items v = None ->
-  is_err (array_encode fixed bw inst enc v) = true.
-Proof. intros Hs _. unfold array_encode. destruct v; try discriminate; reflexivity. Qed.
+Lemma unsized_array_err fixed bw enc v : sized v = false -> is_err (array_encode fixed bw enc v) = true.
+Proof. intros Hs. unfold array_encode. rewrite is_err_wrap. destruct v; try discriminate; reflexivity. Qed.
 
 (* bit-string arrays: the only loud case is fewer values than the array length *)
 Lemma bits_array_fixed_err n w enc v l :
   seq_items v = Some l -> zlen l <? Z.of_nat n = true ->
-  is_err (array_encode (Some n) (Some w) false enc v) = true.
+  is_err (array_encode (Some n) (Some w) enc v) = true.
 Proof.
-  intros Hv H. unfold array_encode.
+  intros Hv H. unfold array_encode. rewrite is_err_wrap.
   assert (Hlen : py_len v = Ok (zlen l)) by (destruct v; try discriminate; injection Hv as <-; reflexivity).
   rewrite Hlen. cbn [bind]. now rewrite H.
 Qed.
@@ -268,7 +256,7 @@ Qed.
 Definition Rejects (t : ty) : Prop :=
   forall v, bad t v = true -> silent t v = false -> is_err (encode t v) = true.
 
-Lemma seq_items_cases v : (exists l, seq_items v = Some l /\ (v = VList l \/ v = VTuple l)) \/ seq_items v = None.
+Lemma seq_items_cases v : (exists l, seq_items v = Some l) \/ seq_items v = None.
 Proof. destruct v; cbn; eauto. Qed.
 
 Lemma rejects_array_common e (IH : Rejects e) (fixed : option nat) v :
@@ -286,14 +274,12 @@ Lemma rejects_array_common e (IH : Rejects e) (fixed : option nat) v :
                end
    | None => sized v = false
    end) ->
-  is_err (array_encode fixed (bits_width e) (is_instance e) (as_member e (encode e)) v) = true.
+  is_err (array_encode fixed (bits_width e) (as_member e (encode e)) v) = true.
 Proof.
-  intros H. destruct (seq_items_cases v) as [(l & Hl & _)|Hn].
+  intros H. destruct (seq_items_cases v) as [(l & Hl)|Hn].
   - rewrite Hl in H. destruct (bits_width e) as [w|] eqn:Hb.
-    + destruct fixed as [n|]; [|contradiction].
-      assert (Hi : is_instance e = false) by (destruct e; try discriminate; reflexivity).
-      rewrite Hi. eapply bits_array_fixed_err; eauto.
-    + rewrite <- Hb. apply (array_items_err fixed e _ v l Hl Hb).
+    + destruct fixed as [n|]; [|contradiction]. eapply bits_array_fixed_err; eauto.
+    + apply (array_items_err fixed _ v l Hl).
       destruct fixed as [n|].
       * destruct H as [H|[H1 H2]]; [now left|right].
         destruct (existsb_firstn_nth _ _ _ H1) as (j & x & Hj & Hx & Hbx). exists j, x. repeat split; auto.
@@ -308,15 +294,17 @@ Qed.
 Theorem encode_rejects : forall t, Rejects t.
 Proof.
   induction t using ty_ind_nested; intros v Hb Hs; cbn [bad] in Hb; try discriminate; cbn [encode].
-  - (* TInt *) apply int_encode_err. destruct v; auto; try discriminate. now apply negb_true_iff.
+  - (* TInt *) now apply int_encode_err.
   - (* TReal *)
     unfold real_encode. rewrite is_err_pub. unfold pack_real. unfold real_bad in Hb.
     destruct (as_float v) as [b|]; cbn [bind]; [|reflexivity].
     apply andb_prop in Hb as [Hd Hr]. destruct dbl; [discriminate|]. destruct (round32 b); [discriminate|reflexivity].
+  - (* TDateTime *)
+    apply datetime_encode_bad. destruct (seq_items v) as [[|t [|d [|? ?]]]|]; auto. now apply negb_true_iff.
   - (* TStr *) apply str_encode_bad. destruct v; auto.
   - (* TStringN *) apply stringn_encode_bad. destruct v; auto.
   - (* TNBytes *)
-    cbn [silent] in Hs. unfold nbytes_encode. destruct v; try discriminate; rewrite is_err_pub; reflexivity.
+    unfold nbytes_encode. rewrite is_err_pub. destruct v; try discriminate; reflexivity.
   - (* TBits *)
     unfold bits_encode. rewrite is_err_pub. destruct (py_len v) as [n|]; cbn [bind]; [|reflexivity]. now rewrite Hb.
   - (* TArrFixed *)
@@ -336,10 +324,11 @@ Proof.
   - (* TStruct *)
     cbn [silent] in Hs. unfold struct_encode. rewrite is_err_pub.
     set (ms' := map (fun m => (fst m, as_member (snd m) (encode (snd m)))) ms).
+    assert (Hlen' : length ms' = length ms) by (unfold ms'; apply map_length).
     assert (Hseq : forall l, (length l <? length ms)%nat || existsb2 (fun m x => bad (snd m) x) ms l = true ->
-                              (length l <? length ms)%nat || existsb2 (fun m x => silent (snd m) x) ms l = false ->
-                              is_err (struct_encode_seq ms' l) = true).
-    { intros l Hbl Hsl. apply orb_false_elim in Hsl as [Hlen Hsl]. rewrite Hlen in Hbl. cbn [orb] in Hbl.
+                              existsb2 (fun m x => silent (snd m) x) ms l = false ->
+                              is_err (if (length l <? length ms')%nat then Err DataError else struct_encode_seq ms' l) = true).
+    { intros l Hbl Hsl. rewrite Hlen'. destruct (length l <? length ms)%nat; [reflexivity|]. cbn [orb] in Hbl.
       destruct (existsb2_nth _ _ _ Hbl) as (j & m & x & Hm & Hx & Hbx).
       apply struct_seq_err. exists j, (fst m, as_member (snd m) (encode (snd m))), x. repeat split.
       - unfold ms'. rewrite nth_error_map, Hm. reflexivity.
@@ -374,7 +363,7 @@ Proof.
   - (* TIPAddr *)
     unfold ip_encode. rewrite is_err_pub. destruct v; try reflexivity; try discriminate.
     + destruct (in_urange 4 z); [discriminate|reflexivity].
-    + unfold ip_dom in Hb. destruct (parse_ipv4 s); [discriminate|reflexivity].
+    + unfold ip_ok in Hb. destruct (parse_ipv4 s); [discriminate|reflexivity].
     + destruct (length b =? 4)%nat; [discriminate|reflexivity].
   - (* TPcccAscii *)
     unfold pccc_ascii_encode. rewrite is_err_pub, pccc_ascii_enc_is. destruct v; try discriminate; reflexivity.
@@ -382,11 +371,10 @@ Proof.
     apply pccc_string_encode_bad. destruct v; auto. now apply negb_true_iff.
 Qed.
 
-(* at the public call, when no TypeError escapes, the rejection is a DataError *)
+(* at the public call the rejection is a DataError *)
 Theorem encode_rejects_dataerror t v :
-  bad t v = true -> silent t v = false -> enc_foreign t v = false -> in_model t v = true ->
-  encode t v = Err DataError.
+  bad t v = true -> silent t v = false -> encode t v = Err DataError.
 Proof.
-  intros Hb Hs Hf Hm. pose proof (encode_rejects t v Hb Hs) as He. pose proof (encode_lib t v Hf Hm) as Hl.
+  intros Hb Hs. pose proof (encode_rejects t v Hb Hs) as He. pose proof (encode_lib t v) as Hl.
   destruct (encode t v); [discriminate|]. cbn in Hl. now subst.
 Qed.
